@@ -32,7 +32,7 @@ def _chunks(*files):
 
 GEN1_FILES = ("GenCore", "GenKOps", "GenKFns", "GenKCtor", "GenRegs")
 GEN2_FILES = ("GenPre", "GenQuant", "GenQProb", "GenOps", "GenBits", "GenH", "GenCtors", "GenQft", "GenSample", "GenVirtl", "GenExtOp",
-              "GenCreg", "GenMeas", "GenSym", "GenInt", "GenMatrix", "GenMacro", "GenMacroNew")
+              "GenCreg", "GenMeas", "GenSym", "GenInt", "GenMatrix", "GenMacro", "GenMacroNew", "GenGates")
 GEN2_MODULES = _chunks(*GEN2_FILES) + ["Qvnt.Lemmas.GenTwins", "Qvnt.Lemmas.GenThreads"]
 
 
@@ -142,7 +142,7 @@ PROPS = {
     },
     "C11": {
         "modules": ["Qvnt.Props.C11", "Qvnt.Props.Code.C11"],
-        "tie": [tie3(r"int_process_(apply_gate|gate|if|node|nodes|node_apply)_eq|int_(ast_changes|add_ast|new)_eq|processNode_inv|processApply_macros|foldlM_process|regsOf_eq|argsOf_eq|macro_process(_nested)?_eq|macro_argument_name_eq|macro_new_eq", r"UNSUPPORTED (mod\.rs: qasm/int/mod\.rs::(process_(apply_gate|gate|if|node|nodes)|ast_changes|add_ast|new):|macros\.rs)"), tiec(r"parse_\w+|sym_\w+"), tie(r"creg_(set|xor|reset|get)_eq|notW_eq", sources=r"UNSUPPORTED class\.rs"), tie2(r"creg_get_by_mask_eq|quant_(reset_by_mask|measure_mask|reset)_eq|bitsList_eq|sym_(finish|step|reset|new|get_class|get_probabilities)_eq|store_(set|xor)_eq|finish_as_foldlM|mstep_inv", r"UNSUPPORTED (quant\.rs: register/quant\.rs::(reset_by_mask|measure_mask|reset):|class\.rs|bits_iter\.rs|sym\.rs)", creg=True), tie2(r"extop_(push|append)_eq", r"UNSUPPORTED ext_op\.rs"), tie3(r"int_process_(measure|reset|barrier)_eq|int_branch(_with_id)?_eq|int_xor_eq|int_get_[qc]_idx_eq", r"UNSUPPORTED mod\.rs: qasm/int/mod\.rs::(process_(measure|reset|barrier)|branch|branch_with_id|xor|get_[qc]_idx_with_context|get_idx_by_alias):")],
+        "tie": [tie3(r"int_process_(apply_gate|gate|if|node|nodes|node_apply)_eq|int_(ast_changes|add_ast|new)_eq|processNode_inv|processApply_macros|foldlM_process|regsOf_eq|argsOf_eq|macro_process(_nested)?_eq|macro_argument_name_eq|macro_new_eq|gate_arm_\w+_eq", r"UNSUPPORTED (mod\.rs: qasm/int/mod\.rs::(process_(apply_gate|gate|if|node|nodes)|ast_changes|add_ast|new):|macros\.rs|gates\.rs)"), tiec(r"parse_\w+|sym_\w+"), tie(r"creg_(set|xor|reset|get)_eq|notW_eq", sources=r"UNSUPPORTED class\.rs"), tie2(r"creg_get_by_mask_eq|quant_(reset_by_mask|measure_mask|reset)_eq|bitsList_eq|sym_(finish|step|reset|new|get_class|get_probabilities)_eq|store_(set|xor)_eq|finish_as_foldlM|mstep_inv", r"UNSUPPORTED (quant\.rs: register/quant\.rs::(reset_by_mask|measure_mask|reset):|class\.rs|bits_iter\.rs|sym\.rs)", creg=True), tie2(r"extop_(push|append)_eq", r"UNSUPPORTED ext_op\.rs"), tie3(r"int_process_(measure|reset|barrier)_eq|int_branch(_with_id)?_eq|int_xor_eq|int_get_[qc]_idx_eq", r"UNSUPPORTED mod\.rs: qasm/int/mod\.rs::(process_(measure|reset|barrier)|branch|branch_with_id|xor|get_[qc]_idx_with_context|get_idx_by_alias):")],
         "suites": [suite("intnu", dict(count=600), dict(count=20000)), suite("c17", dict(count=150), dict(count=3000))],
         "mismatch_tags": INT_STRUCT,
         "spec_tags": [r"refsem\.(psi|creg|run)", r"c11\..*", r"iexpect\.accept", r"isame"],
@@ -155,7 +155,7 @@ PROPS = {
     },
     "C12": {
         "modules": ["Qvnt.Props.C12", "Qvnt.Props.Code.C12"],
-        "tie": [tie3(r"int_process_(apply_gate|gate|if|node|nodes|node_apply)_eq|int_(ast_changes|add_ast|new)_eq|processNode_inv|processApply_macros|foldlM_process|regsOf_eq|argsOf_eq|macro_process(_nested)?_eq|macro_argument_name_eq|macro_new_eq", r"UNSUPPORTED (mod\.rs: qasm/int/mod\.rs::(process_(apply_gate|gate|if|node|nodes)|ast_changes|add_ast|new):|macros\.rs)"), tiec(r"parse_\w+|sym_\w+")],
+        "tie": [tie3(r"int_process_(apply_gate|gate|if|node|nodes|node_apply)_eq|int_(ast_changes|add_ast|new)_eq|processNode_inv|processApply_macros|foldlM_process|regsOf_eq|argsOf_eq|macro_process(_nested)?_eq|macro_argument_name_eq|macro_new_eq|gate_arm_\w+_eq", r"UNSUPPORTED (mod\.rs: qasm/int/mod\.rs::(process_(apply_gate|gate|if|node|nodes)|ast_changes|add_ast|new):|macros\.rs|gates\.rs)"), tiec(r"parse_\w+|sym_\w+")],
         "suites": [suite("fuzz", dict(count=1500, timeout=120), dict(count=60000, timeout=3000)),
                    suite("intnu", dict(count=200), dict(count=3000))],
         "mismatch_tags": [r"i(add|chg)\.result", r"isym\.(new|init|reset|finish)(\.creg)?"],
@@ -169,7 +169,7 @@ PROPS = {
     },
     "C17": {
         "modules": ["Qvnt.Props.C17", "Qvnt.Props.Code.C18", "Qvnt.Props.Code.C17"],
-        "tie": [tie3(r"int_process_(apply_gate|gate|if|node|nodes|node_apply)_eq|int_(ast_changes|add_ast|new)_eq|processNode_inv|processApply_macros|foldlM_process|regsOf_eq|argsOf_eq|macro_process(_nested)?_eq|macro_argument_name_eq|macro_new_eq", r"UNSUPPORTED (mod\.rs: qasm/int/mod\.rs::(process_(apply_gate|gate|if|node|nodes)|ast_changes|add_ast|new):|macros\.rs)"), tiec(r"sym_\w+"), tie2(r"extop_(push|append)_eq|sym_(finish|step|reset|new|get_class|get_probabilities)_eq|finish_as_foldlM", r"UNSUPPORTED (ext_op\.rs|sym\.rs)", creg=True), tie3(r"int_(append|prepend)_int_eq", r"UNSUPPORTED mod\.rs: qasm/int/mod\.rs::(append_int|prepend_int):")],
+        "tie": [tie3(r"int_process_(apply_gate|gate|if|node|nodes|node_apply)_eq|int_(ast_changes|add_ast|new)_eq|processNode_inv|processApply_macros|foldlM_process|regsOf_eq|argsOf_eq|macro_process(_nested)?_eq|macro_argument_name_eq|macro_new_eq|gate_arm_\w+_eq", r"UNSUPPORTED (mod\.rs: qasm/int/mod\.rs::(process_(apply_gate|gate|if|node|nodes)|ast_changes|add_ast|new):|macros\.rs|gates\.rs)"), tiec(r"sym_\w+"), tie2(r"extop_(push|append)_eq|sym_(finish|step|reset|new|get_class|get_probabilities)_eq|finish_as_foldlM", r"UNSUPPORTED (ext_op\.rs|sym\.rs)", creg=True), tie3(r"int_(append|prepend)_int_eq", r"UNSUPPORTED mod\.rs: qasm/int/mod\.rs::(append_int|prepend_int):")],
         "suites": [suite("c17", dict(count=300), dict(count=10000))],
         "mismatch_tags": INT_STRUCT,
         "spec_tags": [r"isame", r"iexpect\.asts"],
@@ -182,7 +182,7 @@ PROPS = {
     },
     "C18": {
         "modules": ["Qvnt.Props.C18", "Qvnt.Props.Code.C18"],
-        "tie": [tie3(r"int_process_(apply_gate|gate|if|node|nodes|node_apply)_eq|int_(ast_changes|add_ast|new)_eq|processNode_inv|processApply_macros|foldlM_process|regsOf_eq|argsOf_eq|macro_process(_nested)?_eq|macro_argument_name_eq|macro_new_eq", r"UNSUPPORTED (mod\.rs: qasm/int/mod\.rs::(process_(apply_gate|gate|if|node|nodes)|ast_changes|add_ast|new):|macros\.rs)"), tie3(r"int_(append|prepend)_int_eq|int_process_(qreg|creg)_eq", r"UNSUPPORTED mod\.rs: qasm/int/mod\.rs::(append_int|prepend_int|process_(qreg|creg)):")],
+        "tie": [tie3(r"int_process_(apply_gate|gate|if|node|nodes|node_apply)_eq|int_(ast_changes|add_ast|new)_eq|processNode_inv|processApply_macros|foldlM_process|regsOf_eq|argsOf_eq|macro_process(_nested)?_eq|macro_argument_name_eq|macro_new_eq|gate_arm_\w+_eq", r"UNSUPPORTED (mod\.rs: qasm/int/mod\.rs::(process_(apply_gate|gate|if|node|nodes)|ast_changes|add_ast|new):|macros\.rs|gates\.rs)"), tie3(r"int_(append|prepend)_int_eq|int_process_(qreg|creg)_eq", r"UNSUPPORTED mod\.rs: qasm/int/mod\.rs::(append_int|prepend_int|process_(qreg|creg)):")],
         "suites": [suite("c18", dict(count=400), dict(count=12000))],
         "mismatch_tags": [r"iadd\.(result|summary|blocks?\d*|tail)", r"inew.*"],
         "spec_tags": [r"iunchanged", r"isame", r"iexpect\.plant"],
@@ -207,8 +207,8 @@ PROPS = {
         "design_ref": "DESIGN.md section 5, C19 and A.4",
     },
     "C09": {
-        "modules": ["Qvnt.Props.C09"],
-        "tie": [tie2(r"pauli_\w+_eq|rotate_\w+_eq|swapmod_\w+_eq|op_\w+_eq|checked_eq|h_(loop|h)_eq", r"UNSUPPORTED (mod\.rs: operator/mod\.rs|h\.rs|pauli\.rs|rotate\.rs|swap\.rs|mod\.rs: operator/single/mod\.rs::(from|single_op_checked):)")],
+        "modules": ["Qvnt.Props.C09", "Qvnt.Props.Code.C09"],
+        "tie": [tie2(r"pauli_\w+_eq|rotate_\w+_eq|swapmod_\w+_eq|op_\w+_eq|checked_eq|h_(loop|h)_eq|gate_arm_\w+_eq", r"UNSUPPORTED (mod\.rs: operator/mod\.rs|h\.rs|pauli\.rs|rotate\.rs|swap\.rs|gates\.rs|mod\.rs: operator/single/mod\.rs::(from|single_op_checked):)")],
         "suites": [
             suite("c09", dict(count=2500), dict(count=60000)),
             suite("int", dict(count=150), dict(count=3000)),
@@ -224,7 +224,7 @@ PROPS = {
     },
     "C10": {
         "modules": ["Qvnt.Props.C10", "Qvnt.Props.Code.C11", "Qvnt.Props.Code.C10"],
-        "tie": [tie3(r"int_process_(apply_gate|gate|if|node|nodes|node_apply)_eq|int_(ast_changes|add_ast|new)_eq|processNode_inv|processApply_macros|foldlM_process|regsOf_eq|argsOf_eq|macro_process(_nested)?_eq|macro_argument_name_eq|macro_new_eq", r"UNSUPPORTED (mod\.rs: qasm/int/mod\.rs::(process_(apply_gate|gate|if|node|nodes)|ast_changes|add_ast|new):|macros\.rs)"), tiec(r"parse_\w+"), tie2(r"extop_(push|append)_eq|sym_(finish|step|reset|new|get_class|get_probabilities)_eq|finish_as_foldlM", r"UNSUPPORTED (ext_op\.rs|sym\.rs)", creg=True), tie3(r"int_get_[qc]_idx_eq|fold_idx_eq|int_branch(_with_id)?_eq|int_process_(qreg|creg|barrier|opaque)_eq", r"UNSUPPORTED mod\.rs: qasm/int/mod\.rs::(get_idx_by_alias|get_[qc]_idx_with_context|branch|branch_with_id|process_(qreg|creg|barrier|opaque)):")],
+        "tie": [tie3(r"int_process_(apply_gate|gate|if|node|nodes|node_apply)_eq|int_(ast_changes|add_ast|new)_eq|processNode_inv|processApply_macros|foldlM_process|regsOf_eq|argsOf_eq|macro_process(_nested)?_eq|macro_argument_name_eq|macro_new_eq|gate_arm_\w+_eq", r"UNSUPPORTED (mod\.rs: qasm/int/mod\.rs::(process_(apply_gate|gate|if|node|nodes)|ast_changes|add_ast|new):|macros\.rs|gates\.rs)"), tiec(r"parse_\w+"), tie2(r"extop_(push|append)_eq|sym_(finish|step|reset|new|get_class|get_probabilities)_eq|finish_as_foldlM", r"UNSUPPORTED (ext_op\.rs|sym\.rs)", creg=True), tie3(r"int_get_[qc]_idx_eq|fold_idx_eq|int_branch(_with_id)?_eq|int_process_(qreg|creg|barrier|opaque)_eq", r"UNSUPPORTED mod\.rs: qasm/int/mod\.rs::(get_idx_by_alias|get_[qc]_idx_with_context|branch|branch_with_id|process_(qreg|creg|barrier|opaque)):")],
         "suites": [suite("int", dict(count=500), dict(count=15000)), suite("c10e", dict(count=300), dict(count=6000)),
                    suite("c10f", dict(count=400), dict(count=12000)), suite("c17", dict(count=150), dict(count=3000))],
         "mismatch_tags": INT_STRUCT,
@@ -238,7 +238,7 @@ PROPS = {
     },
     "C13": {
         "modules": ["Qvnt.Props.C13", "Qvnt.Props.Code.C13"],
-        "tie": [tie3(r"int_process_(apply_gate|gate|if|node|nodes|node_apply)_eq|int_(ast_changes|add_ast|new)_eq|processNode_inv|processApply_macros|foldlM_process|regsOf_eq|argsOf_eq|macro_process(_nested)?_eq|macro_argument_name_eq|macro_new_eq", r"UNSUPPORTED (mod\.rs: qasm/int/mod\.rs::(process_(apply_gate|gate|if|node|nodes)|ast_changes|add_ast|new):|macros\.rs)"), tiec(r"parse_\w+"), tie3(r"int_check_(ident|reg_size|dup)_eq|int_process_(qreg|creg|measure|reset)_eq|int_get_[qc]_idx_eq|fold_idx_eq", r"UNSUPPORTED mod\.rs: qasm/int/mod\.rs::(check_(ident|reg_size|dup)|process_(qreg|creg|measure|reset)|get_[qc]_idx_with_context|get_idx_by_alias):")],
+        "tie": [tie3(r"int_process_(apply_gate|gate|if|node|nodes|node_apply)_eq|int_(ast_changes|add_ast|new)_eq|processNode_inv|processApply_macros|foldlM_process|regsOf_eq|argsOf_eq|macro_process(_nested)?_eq|macro_argument_name_eq|macro_new_eq|gate_arm_\w+_eq", r"UNSUPPORTED (mod\.rs: qasm/int/mod\.rs::(process_(apply_gate|gate|if|node|nodes)|ast_changes|add_ast|new):|macros\.rs|gates\.rs)"), tiec(r"parse_\w+"), tie3(r"int_check_(ident|reg_size|dup)_eq|int_process_(qreg|creg|measure|reset)_eq|int_get_[qc]_idx_eq|fold_idx_eq", r"UNSUPPORTED mod\.rs: qasm/int/mod\.rs::(check_(ident|reg_size|dup)|process_(qreg|creg|measure|reset)|get_[qc]_idx_with_context|get_idx_by_alias):")],
         "suites": [suite("c13", dict(count=600), dict(count=20000))],
         "mismatch_tags": [r"iadd\.result"],
         "spec_tags": [r"iexpect\..*"],
